@@ -18,7 +18,7 @@ EXPLANATION = (
     "where a verifier parameter exists, on the Ok edge of verify(..); run_pull returns the consumer's value only on the Ok "
     "edge of the pull result. (tempfile-raii) TempFile's Drop removes the file while the handle is open, commit's Err arm "
     "removes it, and no TempFile is leaked through forget/ManuallyDrop/Box::leak. (trailer-hold-gate) into_trailer returns Ok "
-    "only under hold.len() >= trailer_len. Not decided: kill-at-every-step fault injection as such (its static content is the "
+    "only under hold.len() >= trailer_len. (one-terminal, producer-errors-surface, pull-decision-table, last-flag-table, eof-only-after-last: shared with C09) the stream carries `last` only when the producer finished, so the commit on last_seen cannot be reached by a failed or panicked producer. Not decided: kill-at-every-step fault injection as such (its static content is the "
     "order: nothing reaches the destination name before sync_all and rename is the last filesystem effect; rename(2) "
     "atomicity is an OS assumption) and TrailerHold's exact withholding arithmetic."
 )
@@ -305,3 +305,21 @@ def run(facts, R):
             fs = facts_at(C, cs, facts, ei)
             R.check(ok_fact(fs, lambda e: is_call(e, "into_trailer")), "trailer-hold-gate", C.path, "Ok only after into_trailer Ok",
                     "a trailer pull can succeed although the stream was shorter than the trailer", es.get("span"))
+
+    # ---------------- the stream ends with `last` only when the producer really finished (shared with C09): the file pullers
+    # commit on `last_seen`, so a producer failure or panic that is announced as a clean end publishes a truncated file
+    from analysis import report as _report
+    from rules import C09 as _c09
+    sub = _report.Report(R.prop, R.tier, R.config)
+    try:
+        _c09.run(facts, sub)
+    except Exception as e:
+        sub.bad("anchor-resolution", "<crate>", "shared-C09-rules", "the shared end-of-stream rules could not run: %s" % e)
+    keep = ("one-terminal", "producer-errors-surface", "pull-decision-table", "last-flag-table", "eof-only-after-last", "anchor-resolution")
+    for inst in sub.instances:
+        if inst["rule"] in keep and inst["verdict"] == "holds":
+            R.instances.append(inst)
+    for v in sub.violations:
+        if v["rule"] in keep:
+            R.bad(v["rule"], v["fn"], v["what"], v["msg"], v.get("site"), v.get("path"))
+
